@@ -255,6 +255,48 @@ type c06Track struct {
 	Moved   int
 	Cross   int
 	Cycles  int
+	// ObjectIDs are never re-issued: per realm the largest NewTime ever seen
+	// in a committed state, and the Go type of every object seen so far
+	maxTime  map[string]uint64
+	seenType map[string]string
+	started  bool
+	Replaced int // an object of one realm held only by another realm replaced by a fresh one
+}
+
+// reissue checks the fresh keys of a snapshot against the history: a key that
+// was not there after the previous transaction must carry a NewTime above every
+// NewTime its realm has ever used, and an oid: entry must never turn into an
+// object of another type (an overwrite by a different fresh object).
+func (t *c06Track) reissue(sn *rkSnap) []c06Problem {
+	var out []c06Problem
+	if t.maxTime == nil {
+		t.maxTime = map[string]uint64{}
+		t.seenType = map[string]string{}
+	}
+	newMax := map[string]uint64{}
+	for _, id := range sn.Order {
+		o := sn.Objs[id]
+		pkg := id[:strings.Index(id, ":")]
+		ty := fmt.Sprintf("%T", o.Obj)
+		if prev, ok := t.seenType[id]; ok {
+			if prev != ty {
+				out = append(out, c06Problem{"id-reissued", id, fmt.Sprintf("object %s was a %s and is now a %s", id, prev, ty)})
+			}
+		} else if t.started && o.OID.NewTime <= t.maxTime[pkg] {
+			out = append(out, c06Problem{"id-reissued", id, fmt.Sprintf("new object %s (%s) carries NewTime %d although realm %s had already issued %d", id, ty, o.OID.NewTime, pkg, t.maxTime[pkg])})
+		}
+		t.seenType[id] = ty
+		if o.OID.NewTime > newMax[pkg] {
+			newMax[pkg] = o.OID.NewTime
+		}
+	}
+	for pkg, m := range newMax {
+		if m > t.maxTime[pkg] {
+			t.maxTime[pkg] = m
+		}
+	}
+	t.started = true
+	return out
 }
 
 func (t *c06Track) observe(sn *rkSnap) {
@@ -331,7 +373,7 @@ func c06After(ctx *vk.Ctx, ch *rkChain, tr *c06Track, where string) error {
 		return fmt.Errorf("%s: persisted state does not decode: %v", where, err)
 	}
 	tr.observe(sn)
-	probs := c06Check(sn)
+	probs := append(c06Check(sn), tr.reissue(sn)...)
 	// objects whose recorded owner is gone or no longer refers to them
 	stale := map[string]bool{}
 	for _, p := range probs {
@@ -632,6 +674,10 @@ func Exec(cur realm, prog string) string {
 			if Items[a] != nil {
 				Items[a].N = Hold[b]
 			}
+		case 'v': // an item's reference replaced by a node freshly allocated by ga
+			if Items[a] != nil {
+				Items[a].N = ga.New()
+			}
 		case 'o':
 			if Items[a] != nil && Hold[b] != nil {
 				Items[a].Any = Hold[b].L
@@ -675,7 +721,7 @@ var c06Macros = []string{
 	"e;e",                        // pop
 }
 
-var c06OpsB = []string{"G%d%d", "G%d%d", "g%d", "w%d", "W%d%d", "u%d", "I%d", "I%d", "i%d", "n%d%d", "N%d%d", "o%d%d", "y%d%d", "y%d%d", "Y%d", "z%d%d"}
+var c06OpsB = []string{"v%d", "G%d%d", "G%d%d", "g%d", "w%d", "W%d%d", "u%d", "I%d", "I%d", "i%d", "n%d%d", "N%d%d", "o%d%d", "y%d%d", "y%d%d", "Y%d", "z%d%d"}
 
 func c06DrawOp(rt *rapid.T, tbl []string, macros bool) string {
 	if macros && rapid.IntRange(0, 3).Draw(rt, "macro") == 0 {
@@ -694,7 +740,41 @@ func c06DrawOp(rt *rapid.T, tbl []string, macros bool) string {
 	return fmt.Sprintf(f, args...)
 }
 
+// directed sequences spliced (in order, at drawn positions) into a history:
+// an object owned by one realm and held only by the other is replaced by a
+// fresh, equally shaped one in later transactions, then the owning realm
+// allocates. {a} {b} {s} are drawn once per chain.
+var c06Chains = [][]c06Tx{
+	{{B: true, Prog: "w{a}"}, {B: true, Prog: "w{a}"}, {B: true, Prog: "w{a}"}, {B: false, Prog: "N0;S{s}0"}},
+	{{B: true, Prog: "w{a}"}, {B: true, Prog: "w{a}"}, {B: false, Prog: "N1;E1"}, {B: true, Prog: "w{b}"}},
+	{{B: true, Prog: "z{s}{b}"}, {B: true, Prog: "z{s}{b}"}, {B: true, Prog: "I{a}"}, {B: true, Prog: "z{s}{b}"}},
+	{{B: true, Prog: "I{a};v{a}"}, {B: true, Prog: "v{a}"}, {B: true, Prog: "v{a}"}, {B: false, Prog: "N0;P0k"}},
+	{{B: true, Prog: "w{a};I{b};N{b}{a}"}, {B: true, Prog: "w{a}"}, {B: false, Prog: "N2;S{s}2;N3;K23"}, {B: true, Prog: "w{a}"}},
+}
+
 func c06Draw(rt *rapid.T) c06Case {
+	c := c06DrawBase(rt)
+	if rapid.IntRange(0, 2).Draw(rt, "chain") != 0 {
+		ch := rapid.SampledFrom(c06Chains).Draw(rt, "which")
+		rep := strings.NewReplacer("{a}", strconv.Itoa(rapid.IntRange(0, 3).Draw(rt, "ca")), "{b}", strconv.Itoa(rapid.IntRange(0, 3).Draw(rt, "cb")), "{s}", strconv.Itoa(rapid.IntRange(0, 3).Draw(rt, "cs")))
+		pos := rapid.IntRange(0, len(c.Txs)).Draw(rt, "cpos")
+		var out []c06Tx
+		out = append(out, c.Txs[:pos]...)
+		rest := c.Txs[pos:]
+		for _, tx := range ch {
+			out = append(out, c06Tx{B: tx.B, Prog: rep.Replace(tx.Prog)})
+			// at most one unrelated transaction in between
+			if len(rest) > 0 && rapid.IntRange(0, 2).Draw(rt, "gap") == 0 {
+				out = append(out, rest[0])
+				rest = rest[1:]
+			}
+		}
+		c.Txs = append(out, rest...)
+	}
+	return c
+}
+
+func c06DrawBase(rt *rapid.T) c06Case {
 	var c c06Case
 	ntx := rapid.IntRange(5, 30).Draw(rt, "ntx")
 	for i := 0; i < ntx; i++ {
@@ -733,6 +813,7 @@ func c06Exec(ctx *vk.Ctx, c c06Case) error {
 		return err
 	}
 	failed, sameTx := 0, 0
+	seenRepl := map[string]bool{}
 	for i, tx := range c.Txs {
 		path := c06PathA
 		if tx.B {
@@ -754,6 +835,16 @@ func c06Exec(ctx *vk.Ctx, c c06Case) error {
 		if strings.Contains(tx.Prog, "Z") && strings.Contains(tx.Prog, "S") && strings.Contains(tx.Prog, "L") && r.Error == nil {
 			sameTx++
 		}
+		if tx.B && r.Error == nil {
+			for _, op := range strings.Split(tx.Prog, ";") {
+				if len(op) > 1 && (op[0] == 'w' || op[0] == 'z' || op[0] == 'v') {
+					if seenRepl[op] {
+						tr.Replaced++
+					}
+					seenRepl[op] = true
+				}
+			}
+		}
 		if err := c06After(ctx, ch, tr, fmt.Sprintf("after tx %d (%s.Exec(%q), failed=%v)", i, path, tx.Prog, r.Error != nil)); err != nil {
 			return err
 		}
@@ -761,6 +852,7 @@ func c06Exec(ctx *vk.Ctx, c c06Case) error {
 	ctx.ClassIf(tr.Unshare > 0, "share-then-unshare")
 	ctx.ClassIf(tr.Moved > 0, "owner-moved")
 	ctx.ClassIf(tr.Cross > 0, "cross-realm-reference")
+	ctx.ClassIf(tr.Replaced > 0, "foreign-held-object-replaced-by-fresh-one")
 	ctx.ClassIf(failed > 0, "has-failing-tx")
 	ctx.ClassIf(sameTx > 0, "load-detach-attach-in-one-tx")
 	ctx.NTIf(tr.Unshare > 0 || tr.Moved > 0 || tr.Cross > 0)
@@ -770,7 +862,7 @@ func c06Exec(ctx *vk.Ctx, c c06Case) error {
 	return nil
 }
 
-const c06Rule = "rapid: histories of 5-30 transactions (one per block, ~8% ending in a panic) against two cooperating realms; each tx is a generated program of 1-8 ops over 4 transaction-local registers: allocate, load from / store to / clear root slots, link L/R, slices of children (append/pop/clear), maps (set/delete/get), interface fields holding pointers or struct copies, struct-valued fields, array fields, package map and slice roots, closures capturing nodes; realm gb retains nodes of ga, persists nodes allocated by ga's code, hands them back through a crossing call, moves its own objects into ga (also never attached at home) and drops them; after every commit all oid: entries of all realms are decoded from the raw store and refcounts, owners, dangling references, hashes (own and embedded in parents), escaped-hash index and reachability are recomputed; non-trivial = some object was shared and later un-shared, or changed owner, or a cross-realm object reference was persisted"
+const c06Rule = "rapid: histories of 5-30 transactions (one per block, ~8% ending in a panic) against two cooperating realms; each tx is a generated program of 1-8 ops over 4 transaction-local registers: allocate, load from / store to / clear root slots, link L/R, slices of children (append/pop/clear), maps (set/delete/get), interface fields holding pointers or struct copies, struct-valued fields, array fields, package map and slice roots, closures capturing nodes; realm gb retains nodes of ga, persists nodes allocated by ga's code, hands them back through a crossing call, moves its own objects into ga (also never attached at home) and drops them; 2/3 of the histories contain a directed chain in which a foreign-owned, foreign-held object is replaced by a fresh equally shaped one in consecutive transactions before the owner allocates; after every commit all oid: entries of all realms are decoded from the raw store and refcounts, owners, dangling references, hashes (own and embedded in parents), escaped-hash index, reachability and the never-re-issued rule for ObjectIDs are recomputed; non-trivial = some object was shared and later un-shared, or changed owner, or a cross-realm object reference was persisted"
 
 func TestC06_Histories(t *testing.T) {
 	vk.Run(t, vk.Spec[c06Case]{ID: "C06", Name: "TestC06_Histories", Rule: c06Rule, Draw: c06Draw, Exec: c06Exec})
